@@ -141,32 +141,27 @@ Qed.
 
 Lemma set_token_is_set body : exists neg its, set_token body = GSet neg its.
 Proof.
-  unfold set_token. destruct body as [|x core].
-  - simpl. eauto.
-  - destruct x as [|p]; [|].
-    + destruct (filter sitem_nonempty (set_items (0 :: core))) as [|[y|lo hi] r]; eauto.
-      * destruct y as [|q]; eauto. repeat (destruct q; eauto).
-      * destruct lo as [|q]; eauto. repeat (destruct q; eauto).
-    + assert (D : Npos p = 33 \/ Npos p <> 33) by lia. destruct D as [E|NE].
-      * rewrite E. eauto.
-      * destruct (filter sitem_nonempty (set_items (Npos p :: core))) as [|[y|lo hi] r].
-        -- repeat (destruct p; eauto).
-        -- destruct y as [|q]; [repeat (destruct p; eauto)|].
-           assert (D : Npos q = 33 \/ Npos q <> 33) by lia. destruct D as [E|NE'].
-           ++ rewrite E. repeat (destruct p; eauto).
-           ++ repeat (destruct p; eauto); repeat (destruct q; eauto).
-        -- destruct lo as [|q]; [repeat (destruct p; eauto)|].
-           repeat (destruct p; eauto); repeat (destruct q; eauto).
+  unfold set_token. destruct body as [|x core]; [eauto|].
+  destruct (x =? ch_bang); [eauto|].
+  unfold set_token_pos.
+  destruct (filter sitem_nonempty (set_items (x :: core))) as [|[y|lo hi] r]; [eauto| |].
+  - destruct (y =? ch_bang); eauto.
+  - destruct (lo =? ch_bang); eauto.
 Qed.
 
 Lemma in_class_spec body c : tok_accepts (set_token body) c = true <-> in_class body c.
 Proof.
-  unfold in_class. destruct (set_token_is_set body) as [neg [its E]]. rewrite E. simpl.
-  destruct neg; simpl.
-  - rewrite negb_true_iff. rewrite <- items_accept_spec.
-    destruct (existsb (fun i => sitem_accepts i c) its); split; intro H; try congruence.
-    exfalso; apply H; reflexivity.
-  - apply items_accept_spec.
+  unfold in_class. destruct (set_token_is_set body) as [neg [its E]]. rewrite E.
+  unfold tok_accepts. pose proof (items_accept_spec its c) as S.
+  destruct neg; destruct (existsb (fun i => sitem_accepts i c) its); simpl; split; intro H.
+  - discriminate.
+  - exfalso. apply H, S. reflexivity.
+  - intro X. apply S in X. discriminate.
+  - reflexivity.
+  - apply S. reflexivity.
+  - reflexivity.
+  - discriminate.
+  - apply S in H. exact H.
 Qed.
 
 (* the delimiting of a set *)
@@ -287,3 +282,553 @@ Example glob_spec_ex : glob_rel (s2p "*[!a-s].p?") (s2p "t.py").
 Proof. apply glob_spec. vm_compute. reflexivity. Qed.
 
 Local Close Scope N_scope.
+
+(* generic tidying of "exists/and" hypotheses in the backward directions *)
+Ltac break :=
+  repeat match goal with
+         | H : _ /\ _ |- _ => destruct H
+         | H : exists _, _ |- _ => destruct H
+         end.
+
+(* ------------------------------------------------------------------------------------------ *)
+(* B110 try_except_pass / B112 try_except_continue                                             *)
+
+Lemma type_is_broad_spec t :
+  type_is_broad t = true <-> t = NNone \/ field_opt "id" t = Some (NId (s2p "Exception")).
+Proof.
+  destruct t as [cls p fs| l | k | s | z |]; simpl;
+    try (split; [discriminate | intros [H|H]; discriminate]).
+  - destruct (field_opt "id" (Node cls p fs)) as [[| | | s | |]|];
+      try (split; [discriminate | intros [H|H]; discriminate]).
+    split.
+    + intro H. apply pstr_eqb_spec in H. subst. right. reflexivity.
+    + intros [H|H]; [discriminate|]. inversion H; subst. apply pstr_eqb_refl.
+  - split; auto.
+Qed.
+
+Lemma handler_body_ok n body : handler_body n = Ok body <-> field_opt "body" n = Some (NList body).
+Proof.
+  unfold handler_body. destruct (field_opt "body" n) as [[| l | | | |]|]; split; intro H; try discriminate;
+    inversion H; subst; reflexivity.
+Qed.
+
+Lemma typed_gate_true cfg n :
+  typed_gate cfg n = Ok true <->
+  exists b, cfg_check_typed cfg = Ok b /\
+            (b = true \/ exists t, field_opt "type" n = Some t /\ type_is_broad t = true).
+Proof.
+  unfold typed_gate. destruct (cfg_check_typed cfg) as [b|e]; simpl.
+  - destruct b.
+    + split; [intros _; exists true; auto | reflexivity].
+    + destruct (field_opt "type" n) as [t|].
+      * split.
+        -- intro H. inversion H as [H']. exists false. split; [reflexivity|]. right. exists t. auto.
+        -- intros [b [Hb [Hb'|[t' [Ht Hbr]]]]].
+           ++ inversion Hb; subst; discriminate.
+           ++ inversion Ht; subst. rewrite Hbr. reflexivity.
+      * split; [discriminate|].
+        intros [b [Hb [Hb'|[t' [Ht _]]]]]; [inversion Hb; subst; discriminate | discriminate].
+  - split; [discriminate | intros [b [Hb _]]; discriminate].
+Qed.
+
+(* the handler is reported: its body is exactly one statement of the class looked for, and
+   (check_typed_exception is truthy, or no type is given, or the type is the Name Exception) *)
+Definition handler_fires (stmt_cls : string) (cfg : jv) (n : node) : Prop :=
+  exists s, field_opt "body" n = Some (NList [s]) /\ is_cls stmt_cls s = true /\
+  exists b, cfg_check_typed cfg = Ok b /\
+            (b = true \/
+             exists t, field_opt "type" n = Some t /\
+                       (t = NNone \/ field_opt "id" t = Some (NId (s2p "Exception")))).
+
+Lemma try_except_fn_rule stmt text cfg c r :
+  try_except_fn stmt text cfg c = Ok (Some r) <-> r = try_issue text /\ handler_fires stmt cfg (c_node c).
+Proof.
+  unfold try_except_fn, handler_fires.
+  destruct (handler_body (c_node c)) as [body|e] eqn:Eb; simpl.
+  2:{ split; [discriminate|]. intros [_ [s [Hs _]]]. apply handler_body_ok in Hs. congruence. }
+  apply handler_body_ok in Eb. rewrite Eb.
+  destruct body as [|s [|s2 rest]].
+  - split; [discriminate | intros [_ [s [Hs _]]]; discriminate].
+  - destruct (typed_gate cfg (c_node c)) as [[|]|e] eqn:Eg; simpl.
+    + apply typed_gate_true in Eg. destruct Eg as [b [Hb Hor]].
+      destruct (is_cls stmt s) eqn:Ec.
+      * split.
+        -- intro H. inversion H; subst. split; [reflexivity|]. exists s. split; [reflexivity|]. split; [exact Ec|].
+           exists b. split; [exact Hb|]. destruct Hor as [Ht|[t [Ht Hbr]]]; [left; exact Ht|].
+           right. exists t. split; [exact Ht | apply type_is_broad_spec; exact Hbr].
+        -- intros [-> _]. reflexivity.
+      * split; [discriminate|]. intros [_ [s' [Hs [Hc _]]]]. inversion Hs; subst. congruence.
+    + split; [discriminate|]. intros [_ [s' [Hs [Hc [b [Hb Hor]]]]]].
+      assert (T : typed_gate cfg (c_node c) = Ok true).
+      { apply typed_gate_true. exists b. split; [exact Hb|]. destruct Hor as [Ht|[t [Ht Hbr]]]; [left; exact Ht|].
+        right. exists t. split; [exact Ht | apply type_is_broad_spec; exact Hbr]. }
+      congruence.
+    + split; [discriminate|]. intros [_ [s' [Hs [Hc [b [Hb Hor]]]]]].
+      assert (T : typed_gate cfg (c_node c) = Ok true).
+      { apply typed_gate_true. exists b. split; [exact Hb|]. destruct Hor as [Ht|[t [Ht Hbr]]]; [left; exact Ht|].
+        right. exists t. split; [exact Ht | apply type_is_broad_spec; exact Hbr]. }
+      congruence.
+  - split; [discriminate | intros [_ [s' [Hs _]]]; discriminate].
+Qed.
+
+Theorem try_except_rule : forall cfg c r,
+  (try_except_pass_fn cfg c = Ok (Some r) <->
+   r = try_issue try_pass_text /\ handler_fires "Pass" cfg (c_node c)) /\
+  (try_except_continue_fn cfg c = Ok (Some r) <->
+   r = try_issue try_continue_text /\ handler_fires "Continue" cfg (c_node c)).
+Proof. intros cfg c r. split; apply try_except_fn_rule. Qed.
+
+(* except ValueError: pass  -- reported only when check_typed_exception is set *)
+Definition ex_handler (ty : node) (stmt : string) : node :=
+  Node "ExceptHandler" (mx_pos 3) [("type", ty); ("name", NNone); ("body", NList [Node stmt (mx_pos 4) []])].
+Definition ex_cfg (b : bool) : jv := JDict [(s2p "check_typed_exception", JBool b)].
+Example try_except_rule_ex :
+  handler_fires "Pass" (ex_cfg false) (c_node (mx_stmt_ctx (ex_handler NNone "Pass"))) /\
+  handler_fires "Continue" (ex_cfg false) (c_node (mx_stmt_ctx (ex_handler (mx_name 3 "Exception") "Continue"))) /\
+  handler_fires "Pass" (ex_cfg true) (c_node (mx_stmt_ctx (ex_handler (mx_name 3 "ValueError") "Pass"))) /\
+  try_except_pass_fn (ex_cfg false) (mx_stmt_ctx (ex_handler (mx_name 3 "ValueError") "Pass")) = Ok None /\
+  try_except_pass_fn (ex_cfg false) (mx_stmt_ctx (ex_handler (mx_attr 3 (mx_name 3 "builtins") "Exception") "Pass")) = Ok None /\
+  try_except_pass_fn (JDict []) (mx_stmt_ctx (ex_handler NNone "Pass")) = Raise KeyError.
+Proof.
+  repeat split.
+  - exists (Node "Pass" (mx_pos 4) []). repeat split. exists false. split; [reflexivity|].
+    right. exists NNone. split; [reflexivity | left; reflexivity].
+  - exists (Node "Continue" (mx_pos 4) []). repeat split. exists false. split; [reflexivity|].
+    right. eexists. split; [reflexivity | right; reflexivity].
+  - exists (Node "Pass" (mx_pos 4) []). repeat split. exists true. split; [reflexivity | left; reflexivity].
+Qed.
+
+(* ------------------------------------------------------------------------------------------ *)
+(* B101 assert_used                                                                            *)
+
+Lemma assert_loop_strs fname gs :
+  assert_loop fname (map JStr gs) =
+  if existsb (fnmatch_b fname) gs then Ok None else Ok (Some assert_issue).
+Proof.
+  induction gs as [|g gs IH]; simpl; [reflexivity|].
+  destruct (fnmatch_b fname g); simpl; [reflexivity | exact IH].
+Qed.
+
+Theorem assert_skips_rule : forall cfg c gs,
+  assert_skips cfg = Ok (map JStr gs) ->
+  (assert_used_fn cfg c = Ok (Some assert_issue) <->
+   forall g, In g gs -> fnmatch_b (c_filename c) g = false) /\
+  (assert_used_fn cfg c = Ok None <-> exists g, In g gs /\ fnmatch_b (c_filename c) g = true).
+Proof.
+  intros cfg c gs H. unfold assert_used_fn. rewrite H. simpl. rewrite assert_loop_strs.
+  destruct (existsb (fnmatch_b (c_filename c)) gs) eqn:E.
+  - apply existsb_exists in E. destruct E as [g [Hg Hm]]. split; split; intro X; try discriminate; try reflexivity.
+    + exfalso. specialize (X g Hg). congruence.
+    + exists g. auto.
+  - assert (F : forall g, In g gs -> fnmatch_b (c_filename c) g = false).
+    { intros g Hg. destruct (fnmatch_b (c_filename c) g) eqn:M; [|reflexivity].
+      assert (existsb (fnmatch_b (c_filename c)) gs = true) by (apply existsb_exists; eauto). congruence. }
+    split; split; intro X; try discriminate; try reflexivity; try exact F.
+    destruct X as [g [Hg Hm]]. rewrite (F g Hg) in Hm. discriminate.
+Qed.
+
+Example assert_skips_rule_ex :
+  let cfg := JDict [(s2p "skips", JList [JStr (s2p "*_test.py"); JStr (s2p "*[st].py")])] in
+  assert_skips cfg = Ok (map JStr [s2p "*_test.py"; s2p "*[st].py"]) /\
+  assert_used_fn cfg (mx_stmt_ctx (Node "Assert" (mx_pos 1) [])) = Ok None /\
+  assert_used_fn (JDict [(s2p "skips", JList [])]) (mx_stmt_ctx (Node "Assert" (mx_pos 1) [])) = Ok (Some assert_issue).
+Proof. vm_compute. repeat split. Qed.
+
+(* ------------------------------------------------------------------------------------------ *)
+(* B506 yaml_load                                                                              *)
+
+Definition is_safe_loader (v : pyval) : bool :=
+  pyval_eqb v (PStr SafeLoader_s) || pyval_eqb v (PStr CSafeLoader_s).
+
+Lemma is_safe_loader_spec v : is_safe_loader v = true <-> v = PStr SafeLoader_s \/ v = PStr CSafeLoader_s.
+Proof. unfold is_safe_loader. rewrite orb_true_iff, !pyval_eqb_str. tauto. Qed.
+
+Lemma yaml_args_unsafe_eq c :
+  yaml_args_unsafe c =
+  do kwv <- get_call_arg_value c (s2p "Loader");;
+  do p <- get_call_arg_at_position c 1;;
+  Ok (negb (is_safe_loader kwv) && negb (is_safe_loader p)).
+Proof.
+  unfold yaml_args_unsafe. rewrite !check_single.
+  destruct (get_call_arg_value c (s2p "Loader")) as [v|e]; simpl; [|reflexivity].
+  destruct (get_call_arg_at_position c 1) as [p|e]; simpl; [|reflexivity].
+  rewrite !is_some_true_check. unfold is_safe_loader. f_equal.
+  destruct (pyval_eqb v (PStr SafeLoader_s)), (pyval_eqb v (PStr CSafeLoader_s)),
+           (pyval_eqb p (PStr SafeLoader_s)), (pyval_eqb p (PStr CSafeLoader_s)); reflexivity.
+Qed.
+
+(* B506 fires iff `yaml` itself is in the import set, the dotted name has a component `yaml` and ends in
+   `load`, and neither the Loader keyword nor the second positional argument reads (as a Name, an
+   attribute's last component, or a str literal) SafeLoader / CSafeLoader *)
+Theorem yaml_safe_rule : forall c q l r,
+  c_qualname c = Some q -> lineno_of (c_node c) = Some l ->
+  (yaml_load_fn c = Ok (Some r) <->
+   r = yaml_issue l /\ is_module_imported_exact c (s2p "yaml") = true /\ yaml_name_hit q = true /\
+   exists kwv p, get_call_arg_value c (s2p "Loader") = Ok kwv /\ get_call_arg_at_position c 1 = Ok p /\
+                 is_safe_loader kwv = false /\ is_safe_loader p = false).
+Proof.
+  intros c q l r Hq Hl. unfold yaml_load_fn. rewrite Hq.
+  destruct (is_module_imported_exact c (s2p "yaml")) eqn:Ei; simpl.
+  2:{ split; [discriminate | intros; break; discriminate]. }
+  rewrite yaml_args_unsafe_eq.
+  destruct (get_call_arg_value c (s2p "Loader")) as [kwv|e]; simpl.
+  2:{ split; [discriminate | intros; break; discriminate]. }
+  destruct (get_call_arg_at_position c 1) as [p|e]; simpl.
+  2:{ split; [discriminate | intros; break; discriminate]. }
+  destruct (yaml_name_hit q) eqn:En; simpl.
+  2:{ split; [discriminate | intros; break; discriminate]. }
+  destruct (is_safe_loader kwv) eqn:E1, (is_safe_loader p) eqn:E2; simpl; rewrite ?Hl;
+    (split; [intro H; try discriminate | intros; break; try congruence]).
+  inversion H; subst. repeat split. exists kwv, p. auto.
+Qed.
+
+Definition yaml_ex (kws : list node) (args : list node) : ctx :=
+  mx_ctx (mx_call 2 (mx_attr 2 (mx_name 2 "yaml") "load") (mx_name 2 "data" :: args) kws) ["yaml"] "yaml.load".
+Example yaml_safe_rule_ex :
+  c_qualname (yaml_ex [] []) = Some (s2p "yaml.load") /\ lineno_of (c_node (yaml_ex [] [])) = Some 2%Z /\
+  yaml_load_fn (yaml_ex [] []) = Ok (Some (yaml_issue 2)) /\
+  yaml_load_fn (yaml_ex [mx_kw 2 "Loader" (mx_attr 2 (mx_name 2 "yaml") "FullLoader")] []) = Ok (Some (yaml_issue 2)) /\
+  yaml_load_fn (yaml_ex [mx_kw 2 "Loader" (mx_attr 2 (mx_name 2 "yaml") "SafeLoader")] []) = Ok None /\
+  yaml_load_fn (yaml_ex [] [mx_name 2 "CSafeLoader"]) = Ok None.
+Proof. vm_compute. repeat split. Qed.
+
+(* ------------------------------------------------------------------------------------------ *)
+(* B614 pytorch_load                                                                           *)
+
+Theorem torch_weights_only_rule : forall c q r,
+  c_qualname c = Some q ->
+  (pytorch_load_fn c = Ok (Some r) <->
+   r = torch_issue (get_lineno_for_call_arg c (s2p "load")) /\
+   is_module_imported_exact c (s2p "torch") = true /\ torch_name_hit q = true /\
+   exists w, get_call_arg_value c (s2p "weights_only") = Ok w /\ w <> PStr (s2p "True")).
+Proof.
+  intros c q r Hq. unfold pytorch_load_fn. rewrite Hq.
+  destruct (is_module_imported_exact c (s2p "torch")) eqn:Ei; simpl.
+  2:{ split; [discriminate | intros; break; discriminate]. }
+  destruct (torch_name_hit q) eqn:En; simpl.
+  2:{ split; [discriminate | intros; break; discriminate]. }
+  destruct (get_call_arg_value c (s2p "weights_only")) as [w|e]; simpl.
+  2:{ split; [discriminate | intros; break; discriminate]. }
+  unfold weights_only_true. destruct (pyval_eqb w (PStr (s2p "True"))) eqn:Ew.
+  - apply pyval_eqb_str in Ew. split; [discriminate|]. intros; break. congruence.
+  - apply pyval_eqb_str_false in Ew. split.
+    + intro H. inversion H; subst. repeat split. exists w. auto.
+    + intros; break. congruence.
+Qed.
+
+Definition torch_ex (kws : list node) : ctx :=
+  mx_ctx (mx_call 2 (mx_attr 2 (mx_name 2 "torch") "load") [mx_name 2 "f"] kws) ["torch"] "torch.load".
+Example torch_weights_only_rule_ex :
+  c_qualname (torch_ex []) = Some (s2p "torch.load") /\
+  pytorch_load_fn (torch_ex []) = Ok (Some (torch_issue None)) /\
+  pytorch_load_fn (torch_ex [mx_kw 2 "weights_only" (mx_const 2 (CBool false))]) = Ok (Some (torch_issue None)) /\
+  pytorch_load_fn (torch_ex [mx_kw 2 "weights_only" (mx_const 2 (CBool true))]) = Ok None /\
+  pytorch_load_fn (torch_ex [mx_kw 2 "weights_only" (mx_const 2 (CStr (s2p "True")))]) = Ok None.
+Proof. vm_compute. repeat split. Qed.
+
+(* ------------------------------------------------------------------------------------------ *)
+(* B202 tarfile_unsafe_members                                                                 *)
+
+Lemma tar_issue_ranks g m :
+  ri_sev (tar_issue g m) = match g with TarLow => LOW | TarMedium => MEDIUM | TarHigh => HIGH end /\
+  ri_conf (tar_issue g m) = ri_sev (tar_issue g m) /\ ri_cwe (tar_issue g m) = 22%Z.
+Proof. destruct g; repeat split. Qed.
+
+(* the call is looked at (tarfile imported exactly, 'extractall' inside the called name, keywords
+   evaluable); [filtered] = a filter keyword whose first occurrence is the str literal 'data' *)
+Definition tar_filtered (l : list (option pstr * pyval)) (kws : list node) : bool :=
+  kw_mem (s2p "filter") l &&
+  match first_kw (s2p "filter") kws with
+  | Some k => value_is_data (field "value" k)
+  | None => false
+  end.
+
+Theorem tarfile_grading_rule : forall c nm l kws,
+  c_name c = Some nm -> tarfile_name_hit c nm = true ->
+  call_keywords c = Ok (Some l) -> node_keywords c = Ok kws ->
+  (* filter='data' : silent, whatever members is *)
+  (tar_filtered l kws = true -> tarfile_unsafe_members_fn c = Ok None) /\
+  (* no members keyword : HIGH/HIGH *)
+  (tar_filtered l kws = false -> kw_mem (s2p "members") l = false ->
+   tarfile_unsafe_members_fn c = Ok (Some (tar_issue TarHigh []))) /\
+  (* members=<Call> : LOW/LOW when the callee is a Name, AttributeError otherwise *)
+  (forall k, tar_filtered l kws = false -> kw_mem (s2p "members") l = true ->
+             first_kw (s2p "members") kws = Some k -> is_cls "Call" (field "value" k) = true ->
+             (forall f, field_opt "id" (field "func" (field "value" k)) = Some (NId f) ->
+                        tarfile_unsafe_members_fn c =
+                        Ok (Some (tar_issue TarLow (members_dict_str (MFunction f))))) /\
+             ((forall f, field_opt "id" (field "func" (field "value" k)) <> Some (NId f)) ->
+              tarfile_unsafe_members_fn c = Raise AttributeError)) /\
+  (* members=<anything else> : MEDIUM/MEDIUM *)
+  (forall k, tar_filtered l kws = false -> kw_mem (s2p "members") l = true ->
+             first_kw (s2p "members") kws = Some k -> is_cls "Call" (field "value" k) = false ->
+             exists m, members_of_value (field "value" k) = Ok m /\ members_grade m = TarMedium /\
+                       tarfile_unsafe_members_fn c = Ok (Some (tar_issue TarMedium (members_dict_str m)))) /\
+  (* a members key that is not a keyword of the node (context call <> context node) *)
+  (tar_filtered l kws = false -> kw_mem (s2p "members") l = true ->
+   first_kw (s2p "members") kws = None -> tarfile_unsafe_members_fn c = Raise TypeError).
+Proof.
+  intros c nm l kws Hn Hh Hk Hnk.
+  assert (Base : tarfile_unsafe_members_fn c =
+                 if tar_filtered l kws then Ok None
+                 else if kw_mem (s2p "members") l then
+                        do m <- get_members_value c;;
+                        match m with
+                        | Some mv => Ok (Some (tar_issue (members_grade mv) (members_dict_str mv)))
+                        | None => Raise TypeError
+                        end
+                      else Ok (Some (tar_issue TarHigh []))).
+  { unfold tarfile_unsafe_members_fn, tar_filtered. rewrite Hn, Hh, Hk. simpl.
+    destruct (kw_mem (s2p "filter") l); simpl; [|reflexivity].
+    unfold is_filter_data. rewrite Hnk. simpl.
+    destruct (first_kw (s2p "filter") kws); simpl; [|reflexivity].
+    destruct (value_is_data (field "value" n)); reflexivity. }
+  assert (GM : get_members_value c =
+               match first_kw (s2p "members") kws with
+               | Some k => do m <- members_of_value (field "value" k);; Ok (Some m)
+               | None => Ok None
+               end).
+  { unfold get_members_value. rewrite Hnk. reflexivity. }
+  repeat split.
+  - intro F. rewrite Base, F. reflexivity.
+  - intros F M. rewrite Base, F, M. reflexivity.
+  - intros f Hf. rewrite Base, H, H0, GM, H1. unfold members_of_value. rewrite H2, Hf. reflexivity.
+  - intros Hf. rewrite Base, H, H0, GM, H1. unfold members_of_value. rewrite H2.
+    destruct (field_opt "id" (field "func" (field "value" k))) as [[| | | f | |]|]; try reflexivity.
+    exfalso. apply (Hf f). reflexivity.
+  - intros k F M Hk1 Hc. rewrite Base, F, M, GM, Hk1. unfold members_of_value. rewrite Hc.
+    destruct (is_cls "Name" (field "value" k)); eexists; repeat split.
+  - intros F M Hk1. rewrite Base, F, M, GM, Hk1. reflexivity.
+Qed.
+
+Definition tar_ex (kws : list node) : ctx :=
+  mx_ctx (mx_call 2 (mx_attr 2 (mx_name 2 "tar") "extractall") [] kws) ["tarfile"] "tar.extractall".
+Example tarfile_grading_rule_ex :
+  c_name (tar_ex []) = Some (s2p "extractall") /\ tarfile_name_hit (tar_ex []) (s2p "extractall") = true /\
+  tarfile_unsafe_members_fn (tar_ex []) = Ok (Some (tar_issue TarHigh [])) /\
+  tarfile_unsafe_members_fn (tar_ex [mx_kw 2 "members" (mx_call 2 (mx_name 2 "safe") [mx_name 2 "tar"] [])])
+  = Ok (Some (tar_issue TarLow (s2p "{'Function': 'safe'}"))) /\
+  tarfile_unsafe_members_fn (tar_ex [mx_kw 2 "members" (mx_name 2 "ms")])
+  = Ok (Some (tar_issue TarMedium (s2p "{'Other': 'ms'}"))) /\
+  tarfile_unsafe_members_fn (tar_ex [mx_kw 2 "members" (mx_call 2 (mx_attr 2 (mx_name 2 "tar") "getmembers") [] [])])
+  = Raise AttributeError /\
+  tarfile_unsafe_members_fn (tar_ex [mx_kw 2 "members" (mx_name 2 "ms"); mx_kw 2 "filter" (mx_const 2 (CStr (s2p "data")))])
+  = Ok None.
+Proof. vm_compute. repeat split. Qed.
+
+(* ------------------------------------------------------------------------------------------ *)
+(* B201 flask_debug_true                                                                       *)
+
+Theorem flask_debug_rule : forall c r,
+  flask_debug_true_fn c = Ok (Some r) <->
+  r = flask_issue (get_lineno_for_call_arg c (s2p "debug")) /\
+  is_module_imported_like c (s2p "flask") = true /\
+  exists q, c_qualname c = Some q /\ endswith q (s2p ".run") = true /\
+            get_call_arg_value c (s2p "debug") = Ok (PStr (s2p "True")).
+Proof.
+  intros c r. unfold flask_debug_true_fn.
+  destruct (is_module_imported_like c (s2p "flask")) eqn:Ei.
+  2:{ split; [discriminate | intros; break; discriminate]. }
+  destruct (c_qualname c) as [q|].
+  2:{ split; [discriminate | intros; break; discriminate]. }
+  destruct (endswith q (s2p ".run")) eqn:Ee.
+  2:{ split; [discriminate | intros; break; congruence]. }
+  rewrite check_single.
+  destruct (get_call_arg_value c (s2p "debug")) as [v|e]; simpl.
+  2:{ split; [discriminate | intros; break; discriminate]. }
+  rewrite is_some_true_check. destruct (pyval_eqb v (PStr (s2p "True"))) eqn:Ev.
+  - apply pyval_eqb_str in Ev. subst v. split.
+    + intro H. inversion H; subst. repeat split. exists q. auto.
+    + intros; break. congruence.
+  - apply pyval_eqb_str_false in Ev. split; [discriminate|]. intros; break. congruence.
+Qed.
+
+Definition flask_ex (v : const) : ctx :=
+  mx_ctx (mx_call 2 (mx_attr 2 (mx_name 2 "app") "run") [] [mx_kw 3 "debug" (mx_const 3 v)])
+         ["flask.Flask"] "app.run".
+Example flask_debug_rule_ex :
+  flask_debug_true_fn (flask_ex (CBool true)) = Ok (Some (flask_issue (Some 3%Z))) /\
+  flask_debug_true_fn (flask_ex (CStr (s2p "True"))) = Ok (Some (flask_issue (Some 3%Z))) /\
+  flask_debug_true_fn (flask_ex (CBool false)) = Ok None /\
+  flask_debug_true_fn (flask_ex (CInt 1)) = Ok None.
+Proof. vm_compute. repeat split. Qed.
+
+(* ------------------------------------------------------------------------------------------ *)
+(* B612 logging_config_insecure_listen                                                         *)
+
+Theorem logging_listen_rule : forall c r,
+  logging_config_insecure_listen_fn c = Ok (Some r) <->
+  r = listen_issue /\ c_qualname c = Some listen_qual /\
+  exists l, call_keywords c = Ok (Some l) /\ kw_mem (s2p "verify") l = false.
+Proof.
+  intros c r. unfold logging_config_insecure_listen_fn.
+  destruct (okey_eqb (c_qualname c) (Some listen_qual)) eqn:Eq.
+  - apply okey_eqb_some in Eq.
+    destruct (call_keywords c) as [[l|]|e]; simpl.
+    + destruct (kw_mem (s2p "verify") l) eqn:Ev.
+      * split; [discriminate | intros; break; congruence].
+      * split; [intro H; inversion H; subst; repeat split; eauto | intros; break; congruence].
+    + split; [discriminate | intros; break; discriminate].
+    + split; [discriminate | intros; break; discriminate].
+  - split; [discriminate|]. intros; break.
+    assert (okey_eqb (c_qualname c) (Some listen_qual) = true) by (apply okey_eqb_some; assumption).
+    congruence.
+Qed.
+
+Definition listen_ex (kws : list node) : ctx :=
+  mx_ctx (mx_call 2 (mx_attr 2 (mx_attr 2 (mx_name 2 "logging") "config") "listen") [mx_const 2 (CInt 9999)] kws)
+         ["logging.config"] "logging.config.listen".
+Example logging_listen_rule_ex :
+  logging_config_insecure_listen_fn (listen_ex []) = Ok (Some listen_issue) /\
+  logging_config_insecure_listen_fn (listen_ex [mx_kw 2 "verify" (mx_name 2 "check")]) = Ok None /\
+  logging_config_insecure_listen_fn (listen_ex [mx_kw 2 "verify" (mx_const 2 CNone)]) = Ok None.
+Proof. vm_compute. repeat split. Qed.
+
+(* ------------------------------------------------------------------------------------------ *)
+(* B601 paramiko_calls                                                                         *)
+
+Theorem paramiko_rule : forall c,
+  (forall r, paramiko_calls_fn c = Ok (Some r) <->
+             r = paramiko_issue /\ is_module_imported_like c (s2p "paramiko") = true /\
+             c_name c = Some (s2p "exec_command")) /\
+  (forall e, paramiko_calls_fn c <> Raise e).
+Proof.
+  intros c. unfold paramiko_calls_fn. split; [intro r | intro e];
+    destruct (is_module_imported_like c (s2p "paramiko")) eqn:Ei;
+    destruct (okey_eqb (c_name c) (Some (s2p "exec_command"))) eqn:En; try discriminate.
+  - apply okey_eqb_some in En. split; [intro H; inversion H; auto | intros; break; congruence].
+  - split; [discriminate|]. intros; break.
+    assert (okey_eqb (c_name c) (Some (s2p "exec_command")) = true) by (apply okey_eqb_some; assumption).
+    congruence.
+  - split; [discriminate | intros; break; discriminate].
+  - split; [discriminate | intros; break; discriminate].
+Qed.
+
+Example paramiko_rule_ex :
+  paramiko_calls_fn (mx_ctx (mx_call 2 (mx_attr 2 (mx_name 2 "client") "exec_command") [mx_name 2 "cmd"] [])
+                            ["paramiko"] "client.exec_command") = Ok (Some paramiko_issue) /\
+  paramiko_calls_fn (mx_ctx (mx_call 2 (mx_attr 2 (mx_name 2 "client") "exec_command") [mx_name 2 "cmd"] [])
+                            ["os"] "client.exec_command") = Ok None.
+Proof. vm_compute. repeat split. Qed.
+
+(* ------------------------------------------------------------------------------------------ *)
+(* B102 exec_used                                                                              *)
+
+Theorem exec_rule : forall c,
+  (forall r, exec_used_fn c = Ok (Some r) <-> r = exec_issue /\ c_qualname c = Some (s2p "exec")) /\
+  (forall e, exec_used_fn c <> Raise e).
+Proof.
+  intros c. unfold exec_used_fn. split; [intro r | intro e];
+    destruct (okey_eqb (c_qualname c) (Some (s2p "exec"))) eqn:Eq; try discriminate.
+  - apply okey_eqb_some in Eq. split; [intro H; inversion H; auto | intros; break; congruence].
+  - split; [discriminate|]. intros; break.
+    assert (okey_eqb (c_qualname c) (Some (s2p "exec")) = true) by (apply okey_eqb_some; assumption).
+    congruence.
+Qed.
+
+Example exec_rule_ex :
+  exec_used_fn (mx_ctx (mx_call 2 (mx_name 2 "exec") [mx_name 2 "src"] []) [] "exec") = Ok (Some exec_issue) /\
+  exec_used_fn (mx_ctx (mx_call 2 (mx_name 2 "exec") [mx_name 2 "src"] []) ["builtins.exec"] "builtins.exec") = Ok None.
+Proof. vm_compute. repeat split. Qed.
+
+(* ------------------------------------------------------------------------------------------ *)
+(* sufficient conditions for silence                                                           *)
+
+Theorem misc_safe_variant_silent :
+  (* B506: Loader= or the second positional argument reads SafeLoader / CSafeLoader *)
+  (forall c q kwv p, c_qualname c = Some q ->
+     get_call_arg_value c (s2p "Loader") = Ok kwv -> get_call_arg_at_position c 1 = Ok p ->
+     is_safe_loader kwv || is_safe_loader p = true -> yaml_load_fn c = Ok None) /\
+  (* B614: weights_only=True (or 'True') *)
+  (forall c q, c_qualname c = Some q ->
+     get_call_arg_value c (s2p "weights_only") = Ok (PStr (s2p "True")) -> pytorch_load_fn c = Ok None) /\
+  (* B202: filter='data' *)
+  (forall c nm l kws k, c_name c = Some nm -> call_keywords c = Ok (Some l) ->
+     kw_mem (s2p "filter") l = true -> node_keywords c = Ok kws ->
+     first_kw (s2p "filter") kws = Some k -> str_of (field "value" k) = Some (s2p "data") ->
+     tarfile_unsafe_members_fn c = Ok None) /\
+  (* B201: debug is anything but True / 'True' *)
+  (forall c q v, c_qualname c = Some q -> get_call_arg_value c (s2p "debug") = Ok v ->
+     v <> PStr (s2p "True") -> flask_debug_true_fn c = Ok None) /\
+  (* B612: a verify keyword is given *)
+  (forall c l, call_keywords c = Ok (Some l) -> kw_mem (s2p "verify") l = true ->
+     logging_config_insecure_listen_fn c = Ok None) /\
+  (* B601 / B102: another name *)
+  (forall c, c_name c <> Some (s2p "exec_command") -> paramiko_calls_fn c = Ok None) /\
+  (forall c, c_qualname c <> Some (s2p "exec") -> exec_used_fn c = Ok None) /\
+  (* B101: some configured glob matches the file name *)
+  (forall cfg c gs g, assert_skips cfg = Ok (map JStr gs) -> In g gs ->
+     fnmatch_b (c_filename c) g = true -> assert_used_fn cfg c = Ok None) /\
+  (* B110 / B112: a typed handler (not the Name Exception) while check_typed_exception is false;
+     or a body that is not exactly one statement; or one statement of another class *)
+  (forall stmt text cfg c body t, handler_body (c_node c) = Ok body ->
+     cfg_check_typed cfg = Ok false -> field_opt "type" (c_node c) = Some t -> type_is_broad t = false ->
+     try_except_fn stmt text cfg c = Ok None) /\
+  (forall stmt text cfg c body, handler_body (c_node c) = Ok body -> List.length body <> 1%nat ->
+     try_except_fn stmt text cfg c = Ok None) /\
+  (forall stmt text cfg c s b, handler_body (c_node c) = Ok [s] -> typed_gate cfg (c_node c) = Ok b ->
+     is_cls stmt s = false -> try_except_fn stmt text cfg c = Ok None).
+Proof.
+  repeat split.
+  - intros c q kwv p Hq Hk Hp Hs. unfold yaml_load_fn. rewrite Hq.
+    destruct (is_module_imported_exact c (s2p "yaml")); simpl; [|reflexivity].
+    rewrite yaml_args_unsafe_eq, Hk, Hp. simpl.
+    apply orb_true_iff in Hs. destruct Hs as [Hs|Hs]; rewrite Hs; simpl; rewrite ?andb_false_r; reflexivity.
+  - intros c q Hq Hw. unfold pytorch_load_fn. rewrite Hq.
+    destruct (is_module_imported_exact c (s2p "torch")); simpl; [|reflexivity].
+    destruct (torch_name_hit q); [|reflexivity]. rewrite Hw. reflexivity.
+  - intros c nm l kws k Hn Hk Hf Hnk Hfk Hs. unfold tarfile_unsafe_members_fn. rewrite Hn.
+    destruct (tarfile_name_hit c nm); [|reflexivity]. rewrite Hk. simpl. rewrite Hf.
+    unfold is_filter_data. rewrite Hnk. simpl. rewrite Hfk. unfold value_is_data. rewrite Hs.
+    rewrite pstr_eqb_refl. reflexivity.
+  - intros c q v Hq Hv Hne. unfold flask_debug_true_fn.
+    destruct (is_module_imported_like c (s2p "flask")); [|reflexivity]. rewrite Hq.
+    destruct (endswith q (s2p ".run")); [|reflexivity].
+    rewrite check_single, Hv. simpl. rewrite is_some_true_check.
+    apply pyval_eqb_str_false in Hne. rewrite Hne. reflexivity.
+  - intros c l Hk Hv. unfold logging_config_insecure_listen_fn.
+    destruct (okey_eqb (c_qualname c) (Some listen_qual)); [|reflexivity].
+    rewrite Hk. simpl. rewrite Hv. reflexivity.
+  - intros c Hn. unfold paramiko_calls_fn.
+    destruct (is_module_imported_like c (s2p "paramiko")); [|reflexivity].
+    destruct (okey_eqb (c_name c) (Some (s2p "exec_command"))) eqn:E; [|reflexivity].
+    apply okey_eqb_some in E. contradiction.
+  - intros c Hn. unfold exec_used_fn.
+    destruct (okey_eqb (c_qualname c) (Some (s2p "exec"))) eqn:E; [|reflexivity].
+    apply okey_eqb_some in E. contradiction.
+  - intros cfg c gs g Hs Hg Hm. apply (proj2 (assert_skips_rule cfg c gs Hs)). eauto.
+  - intros stmt text cfg c body t Hb Hc Ht Hbr. unfold try_except_fn. rewrite Hb. simpl.
+    destruct body as [|s [|s2 rest]]; try reflexivity.
+    unfold typed_gate. rewrite Hc. simpl. rewrite Ht, Hbr. reflexivity.
+  - intros stmt text cfg c body Hb Hl. unfold try_except_fn. rewrite Hb. simpl.
+    destruct body as [|s [|s2 rest]]; try reflexivity. simpl in Hl. contradiction.
+  - intros stmt text cfg c s b Hb Hg Hc. unfold try_except_fn. rewrite Hb. simpl. rewrite Hg. simpl.
+    rewrite Hc. destruct b; reflexivity.
+Qed.
+
+(* the module is not in the import set (exactly for yaml / torch / tarfile, as a substring of an
+   imported name for flask / paramiko): nothing is evaluated, nothing is reported *)
+Theorem misc_not_imported_silent :
+  (forall c q, c_qualname c = Some q -> is_module_imported_exact c (s2p "yaml") = false -> yaml_load_fn c = Ok None) /\
+  (forall c q, c_qualname c = Some q -> is_module_imported_exact c (s2p "torch") = false -> pytorch_load_fn c = Ok None) /\
+  (forall c nm, c_name c = Some nm -> is_module_imported_exact c (s2p "tarfile") = false ->
+                tarfile_unsafe_members_fn c = Ok None) /\
+  (forall c, is_module_imported_like c (s2p "flask") = false -> flask_debug_true_fn c = Ok None) /\
+  (forall c, is_module_imported_like c (s2p "paramiko") = false -> paramiko_calls_fn c = Ok None).
+Proof.
+  repeat split.
+  - intros c q Hq Hi. unfold yaml_load_fn. rewrite Hq, Hi. reflexivity.
+  - intros c q Hq Hi. unfold pytorch_load_fn. rewrite Hq, Hi. reflexivity.
+  - intros c nm Hn Hi. unfold tarfile_unsafe_members_fn, tarfile_name_hit. rewrite Hn, Hi. reflexivity.
+  - intros c Hi. unfold flask_debug_true_fn. rewrite Hi. reflexivity.
+  - intros c Hi. unfold paramiko_calls_fn. rewrite Hi. reflexivity.
+Qed.
+
+Example misc_safe_variant_silent_ex :
+  (* from yaml import load: the import set holds 'yaml.load', not 'yaml' -> B506 is silent *)
+  yaml_load_fn (mx_ctx (mx_call 2 (mx_name 2 "load") [mx_name 2 "data"] []) ["yaml.load"] "yaml.load") = Ok None /\
+  get_call_arg_value (yaml_ex [mx_kw 2 "Loader" (mx_name 2 "SafeLoader")] []) (s2p "Loader") = Ok (PStr SafeLoader_s) /\
+  get_call_arg_value (torch_ex [mx_kw 2 "weights_only" (mx_const 2 (CBool true))]) (s2p "weights_only")
+  = Ok (PStr (s2p "True")) /\
+  get_call_arg_value (flask_ex (CBool false)) (s2p "debug") = Ok (PStr (s2p "False")).
+Proof. vm_compute. repeat split. Qed.
